@@ -332,6 +332,15 @@ def rule_finalize(P):
     return r
 
 
+def rule_fresh(P):
+    """bufferevent deferred runners: callback pointers are re-read after every earlier user callback (a callback may free the bufferevent's context or replace the callbacks: a cached
+    pointer is a use after release).  C19's rule (engine/props/C19.py: rule_fresh) reused."""
+    from . import C19
+    r = C19.rule_fresh(P)
+    r.id = "C10-fresh"
+    return r
+
+
 def run(ctx, config):
     P = ctx.prog(UNITS, config)
-    return [rule_fields(P), rule_closures(P), rule_once(P), rule_finalize(P)]
+    return [rule_fields(P), rule_closures(P), rule_once(P), rule_finalize(P), rule_fresh(P)]
